@@ -645,7 +645,16 @@ def build(recipe):
     e = E()
     kw = config_kwargs(recipe.get("config", "default"))
     cls = e["SubSoup"] if recipe.get("subsoup") else e["BeautifulSoup"]
-    soup = cls(recipe["markup"], "html.parser", **kw)
+    markup = recipe["markup"]
+    b = recipe.get("bytes")
+    if b:
+        # parsed from BYTES: original_encoding is the detector's name for the codec, not the spelling of the declaration
+        import logging
+        logging.getLogger("bs4.dammit").setLevel(logging.ERROR)
+        markup = markup.encode(b["encoding"], "xmlcharrefreplace")
+        if b.get("from_encoding"):
+            kw = dict(kw, from_encoding=b["from_encoding"])
+    soup = cls(markup, "html.parser", **kw)
     for op in recipe.get("ops", []):
         apply_op(soup, op, soup)
     return soup
@@ -1658,11 +1667,27 @@ def check_pool(ctx, batch, recipe, pool_desc, seed_tuple, stream, pool_id):
 HOWS = ["copy", "deepcopy", "__copy__"]
 
 
-def gen_recipe(r, big=False):
+BYTES_DECLS = [   # (codec the bytes are written in, from_encoding or None, <meta> declarations: spelling != detector's name)
+    ("utf-8", None, ['<meta charset="UTF-8">', '<meta http-equiv="Content-Type" content="text/html; charset=UTF-8">', '<meta charset="utf8">']),
+    ("latin-1", None, ['<meta charset="ISO-8859-1">', '<meta content="text/html; charset=ISO-8859-1" http-equiv="content-type">',
+                       '<meta charset="Latin1">']),
+    ("windows-1252", None, ['<meta charset="Windows-1252">', '<meta charset="CP1252">']),
+    ("latin-1", "latin-1", ['<meta charset="x-user-defined">', '<meta http-equiv="Content-Type" content="text/html; charset=x-user-defined">']),
+    ("koi8-r", None, ['<meta charset="KOI8-R">']),
+    ("utf-8", None, ['<meta charset="utf-8">']),     # control: same spelling
+]
+
+
+def gen_recipe(r, big=False, from_bytes=False):
     cfg = r.choice(CONFIGS)
     style = r.random()
     markup = "" if style < 0.12 else gen_markup(r, big)
     recipe = {"markup": markup, "config": cfg, "ops": []}
+    if from_bytes:
+        enc, fe, decls = r.choice(BYTES_DECLS)
+        head = "".join(r.sample(decls, r.choice((1, 1, 2)) if len(decls) > 1 else 1))
+        recipe["markup"] = markup = r.choice(["%s", "<html><head>%s<title>t</title></head><body>"]) % head + (markup or "<p>caf\xe9</p>")
+        recipe["bytes"] = {"encoding": enc, "from_encoding": fe}
     if r.random() < 0.06:
         recipe["subsoup"] = True
     nops = 0 if (markup and style < 0.35) else r.choice((1, 2, 3, 5, 8, 12))
@@ -1981,6 +2006,130 @@ def stream_soupinfo(ctx, batch):
     ctx.count("soupinfo:copies", n)
 
 
+def build_detached(desc):
+    """a detached element: hand-built string / tag, or a node extracted from a built tree. -> (element, keep-alive)"""
+    e = E()
+    k = desc["kind"]
+    if k == "hand-str":
+        return e["cls"][desc["cls"]](desc["text"]), None
+    if k == "new-string":
+        soup = e["BeautifulSoup"]("", "html.parser")
+        return soup.new_string(desc["text"], e["cls"][desc["cls"]]), soup
+    if k == "hand-tag":
+        t = make_bare_tag(desc["tag"])
+        for i, kid in enumerate(desc.get("kids", [])):
+            t.append(e["cls"][kid[1]](kid[2]) if kid[0] == "s" else make_bare_tag(kid[1]))
+        return t, None
+    if k == "new-tag":
+        soup = e["BeautifulSoup"]("", "html.parser")
+        t = soup.new_tag(desc["name"], attrs={"class": "a b", "id": "i"})
+        t.append("x")
+        return t, soup
+    if k == "extracted":
+        soup = build(desc["recipe"])
+        nodes = all_nodes(soup)
+        if len(nodes) < 2:
+            return None, soup
+        el = nodes[1 + desc["index"] % (len(nodes) - 1)]
+        if desc.get("observe"):
+            observe(soup)
+        (el.extract if desc.get("how", "extract") == "extract" else (lambda: el.replace_with("gone")))()
+        return el, soup
+    raise ValueError(k)
+
+
+def check_detached(ctx, batch, desc, how, stream="detached"):
+    """copy of an element that is attached to nothing: a different object, detached, equal, same class; putting the copy into a
+    tree or editing it leaves the original detached and unchanged; against the Lean copyImpl as well"""
+    e = E()
+    el, keep = build_detached(desc)
+    if el is None:
+        return
+    case = {"op": "detached", "element": desc, "how": how}
+    ctx.count(f"detached:{desc['kind']}:{type(el).__name__ if not is_tag(el) else 'Tag'}")
+    ctx.case((stream, json.dumps(desc, sort_keys=True, default=str)[-160:], how))
+    bad = []
+    if el.parent is not None:
+        return
+    c = do_copy(el, how)
+    if c is el:
+        bad.append(("the copy of a detached element is the element itself", "another object", "the same object"))
+    bad += oracle_copy(el, el, c)
+    before = full_dump(el)
+    links = lambda x: (x.parent, x.next_sibling, x.previous_sibling, x.previous_element,
+                       all_nodes(x)[-1].next_element)
+    # use the copy: put it into a document, then edit it there
+    host = e["BeautifulSoup"]("<div><p>host</p><i>after</i></div>", "html.parser")
+    host.p.insert(0, c)
+    if any(v is not None for v in links(el)) or any(x is el for x in all_nodes(host)):
+        bad.append(("inserting the copy into a tree attached the original", "original still detached", f"parent {el.parent!r}"))
+    if is_tag(c):
+        c["data-edited"] = "1"
+        c.append("more")
+        for t in all_nodes(c):
+            if is_tag(t):
+                for v in t.attrs.values():
+                    if isinstance(v, list):
+                        v.append("zz")
+    else:
+        c.replace_with("replaced")
+    after = full_dump(el)
+    if before != after or any(v is not None for v in links(el)):
+        i = [x != y for x, y in zip(before, after)].index(True) if before != after else -1
+        bad.append(("using the copy changed the detached original", "unchanged and detached",
+                    observe_diff(before[4], after[4]) if i == 4 else shape_diff(before[0], after[0]) if i == 0 else f"links {links(el)!r}"))
+    # and the other way round: a second copy, then the original goes into a tree
+    c2 = do_copy(el, how)
+    b2 = full_dump(c2)
+    host2 = e["BeautifulSoup"]("<ul><li>x</li></ul>", "html.parser")
+    host2.li.append(el)
+    if full_dump(c2) != b2 or c2.parent is not None or c2 is el:
+        bad.append(("inserting the original into a tree changed / attached its copy", "copy unchanged and detached", f"parent {c2.parent!r}"))
+    for what, exp, obs in bad:
+        ctx.count(f"{stream}:oracle-fails")
+        if not capped(ctx, stream):
+            ctx.violation(f"detached receiver: {what}", case=case, expected=str(exp)[:1500], observed=str(obs)[:1500], stream=stream)
+    # the model: a detached receiver is a root of its own
+    try:
+        el3, keep3 = build_detached(desc)
+        reg = Reg()
+        wd = dump(reg, el3)
+        nxt = reg.next
+        c3 = do_copy(el3, how)
+        cd = dump(reg, c3)
+        batch.add(f"c12 copy {inh_of(el3)} {nxt} r {wd}", f"{reg.next} {cd}", case,
+                  "Lean copyImpl and the copy of a detached element disagree", stream)
+    except Unrepresentable:
+        pass
+
+
+def stream_detached(ctx, batch, n_trees):
+    texts = ["x", "", " a b ", "x<y&z", "\u00e9\U0001f600"]
+    k = 0
+    for cls in STR_CLASSES:
+        for text in texts:
+            for kind in ("hand-str", "new-string"):
+                k += 1
+                check_detached(ctx, batch, {"kind": kind, "cls": cls, "text": text}, HOWS[k % 3])
+    for i in range(24):
+        r = ctx.rng("detached-tag", i)
+        d = {"kind": "hand-tag", "tag": rand_bare(r, i),
+             "kids": [["s", r.choice(STR_CLASSES), "k%d" % j] if r.random() < 0.6 else ["t", rand_bare(r, 50 + j)] for j in range(r.randint(0, 4))]}
+        for how in HOWS:
+            check_detached(ctx, batch, d, how)
+    for nm in ("a", "br", "script", "pre"):
+        for how in HOWS:
+            check_detached(ctx, batch, {"kind": "new-tag", "name": nm}, how)
+    for ti in range(n_trees):
+        r = ctx.rng("detached", ti)
+        recipe = gen_recipe(r)
+        for j in range(3):
+            check_detached(ctx, batch, {"kind": "extracted", "recipe": recipe, "index": r.randrange(256), "observe": r.random() < 0.5,
+                                        "how": r.choice(("extract", "extract", "replace_with"))}, HOWS[(ti + j) % 3])
+    ctx.exhaustive_parts.append(f"detached: every string class ({len(STR_CLASSES)}) x {len(texts)} texts x hand-built / soup.new_string, "
+                                "copied while attached to nothing")
+
+
 def stream_settings(ctx):
     """one bare tag per parameter of the live Tag.__init__, given a distinctive value: every instance attribute of the copy
     equals the original's (the search behind the generated copy_self table)"""
@@ -2120,7 +2269,7 @@ def run_pickle_history(ctx, recipe, steps, stream):
 def stream_pickle_history(ctx, n):
     for hi in range(n):
         r = ctx.rng("pickle-history", hi)
-        recipe = gen_recipe(r)
+        recipe = gen_recipe(r, from_bytes=(hi % 3 == 0))
         steps = []
         for g in range(r.choice((2, 2, 3, 4))):
             if r.random() < 0.3:
@@ -2145,7 +2294,8 @@ def stream_pickle(ctx, n_docs):
     e = E()
     for di in range(n_docs):
         r = ctx.rng("pickle", di)
-        recipe = gen_recipe(r)
+        recipe = gen_recipe(r, from_bytes=(di % 3 == 0))
+        ctx.count("pickle:" + ("parsed-from-bytes-with-declaration" if recipe.get("bytes") else "parsed-from-str"))
         # classes defined by bs4 or this module only (picklable); the harness' element classes are module-level
         soup = build(recipe)
         case = {"op": "pickle", "recipe": recipe}
@@ -2247,6 +2397,8 @@ def run_case(ctx, batch, c, stream):
         check_pool(ctx, batch, c["recipe"], c["pool"], tuple(c["seed"]), stream, -1)
     elif op == "pickle-history":
         run_pickle_history(ctx, c["recipe"], c["steps"], stream)
+    elif op == "detached":
+        check_detached(ctx, batch, c["element"], c["how"], stream)
 
 
 def run(ctx: Ctx):
@@ -2276,7 +2428,7 @@ def run(ctx: Ctx):
     import traceback
     streams = [("corpus", lambda: stream_corpus(ctx, batch)), ("nonstring-attr", lambda: stream_nonstring(ctx)),
                ("setitem", lambda: stream_setitem(ctx, batch)), ("soupinfo", lambda: stream_soupinfo(ctx, batch)),
-               ("settings", lambda: stream_settings(ctx)), ("small-exhaustive", lambda: stream_small(ctx, batch, ctx.n(5, 6))),
+               ("settings", lambda: stream_settings(ctx)), ("detached", lambda: stream_detached(ctx, batch, ctx.n(150, 1500))), ("small-exhaustive", lambda: stream_small(ctx, batch, ctx.n(5, 6))),
                ("copies", lambda: stream_random(ctx, batch, ctx.n(1000, 7000))),
                ("equality", lambda: stream_pools(ctx, batch, ctx.n(250, 1600))),
                ("pickle", lambda: stream_pickle(ctx, ctx.n(300, 3000))),
@@ -2350,7 +2502,10 @@ def replay(path):
         print("unpickled:", ascii(p.decode()))
         print("re-parse :", ascii(ref.decode()))
         return 0 if p == ref and not shape_diff(shape(ref), shape(p)) else 1
-    if op in ("copy", "events", "edit", "eq"):
+    if op == "detached":
+        el, keep = build_detached(c["element"])
+        print("detached element:", type(el).__name__, ascii(el.decode() if is_tag(el) else raw(el)), "copied with", c["how"])
+    if op in ("copy", "events", "edit", "eq", "detached"):
         if "recipe" in c:
             print("tree:", ascii(build(c["recipe"]).decode()), "config:", c["recipe"].get("config"), "ops:", c["recipe"].get("ops"))
         for k in ("path", "how", "side", "edit", "labels"):
